@@ -11,12 +11,14 @@ VARIABLE pick
 
 Busy == Len(ready) > 1 \/ dueNow # <<>>
 Cls == IF Busy THEN (IF pick <= 50 THEN {"pass"} ELSE IF pick <= 64 THEN {"reg"} ELSE IF pick <= 78 THEN {"feed"}
-                     ELSE IF pick <= 90 THEN {"cancel"} ELSE {"due"})
-       ELSE (IF pick <= 35 THEN {"reg"} ELSE IF pick <= 65 THEN {"feed"} ELSE {"reg", "feed", "cancel", "due"})
+                     ELSE IF pick <= 88 THEN {"cancel"} ELSE IF pick <= 96 THEN {"due"} ELSE {"release"})
+       ELSE (IF pick <= 30 THEN {"reg"} ELSE IF pick <= 55 THEN {"feed"} ELSE IF pick <= 70 THEN {"release", "cancel", "due"}
+             ELSE {"reg", "feed", "cancel", "due", "release"})
 Redraw == pick' = RandomElement(1..100)
 
 SReg(c, s, api, fails) == "reg" \in Cls /\ (fails => pick % 3 = 0) /\ Reg(c, s, api, fails) /\ Redraw
-SFeed(b) == "feed" \in Cls /\ Len(b) = 1 + (pick % MaxBatch) /\ Feed(b) /\ Redraw
+SFeed(b, sl) == "feed" \in Cls /\ Len(b) = 1 + (pick % MaxBatch) /\ (sl > 0 => pick % 2 = 0) /\ Feed(b, sl) /\ Redraw
+SRelease(conn) == "release" \in Cls /\ Release(conn) /\ Redraw
 SCancel(c) == "cancel" \in Cls /\ Cancel(c) /\ Redraw
 SDue(c) == "due" \in Cls /\ Due(c) /\ Redraw
 SDStep == DStep /\ Redraw              \* always possible: a class with nothing enabled cannot end the run
@@ -25,8 +27,9 @@ SRun == Run /\ UNCHANGED pick
 
 SimNext ==
   \/ \E c \in Callers, s \in Specs, api \in Apis, fails \in BOOLEAN : SReg(c, s, api, fails)
-  \/ \E b \in Batches : SFeed(b)
+  \/ \E b \in Batches, sl \in 0..MaxBatch : SFeed(b, sl)
   \/ \E c \in Callers : SCancel(c) \/ SDue(c)
+  \/ \E conn \in Conns : SRelease(conn)
   \/ SObserve
   \/ SDStep
   \/ SRun
